@@ -38,10 +38,14 @@ def gen_case(r):
             elif k < 0.32:
                 p["typ"] = r.choice(["Callable", "np.ndarray", "Optional[int]"])
                 p["default"] = "```%s```" % r.choice(["np.zeros(3)", "lambda x: x", "(1, 2)"])
+    # parameters / return entries without a description (type only)
+    for n, p in list(ir["params"].items()) + (list(ir["returns"].items()) if ir.get("returns") else []):
+        if r.random() < 0.12 and p.get("typ"):
+            p.pop("doc", None)
     # long descriptions (60..110 characters): with word_wrap=True the emitter wraps the line, possibly inside the default prose
     words = ["value", "used", "for", "the", "training", "loop", "when", "running", "on", "several", "devices", "at", "once", "and", "so", "on"]
     for n, p in ir["params"].items():
-        if r.random() < 0.2:
+        if r.random() < 0.2 and "doc" in p:
             target = r.randint(60, 110)
             d = "Long"
             while len(d) < target:
@@ -94,11 +98,17 @@ def compare(chk, case, r):
     rp = {"fn": "roundtrip", "ir": docir.ir_to_model(ir), "style": style, "emit_types": et, "word_wrap": ww, "edd_emit": edd_e, "edd_parse": edd_p}
     src = docir.ir_view(ir)
     kinds = {kind_of(a["default"]) for _, a in src["params"]} | ({kind_of(src["returns"]["default"])} if src["returns"] else set())
+    docless = any(not a["doc"] for _, a in src["params"]) or bool(src["returns"] and not src["returns"]["doc"])
+    # an entry with neither a description nor an emitted type leaves no trace in a ReST / NumPy docstring: nothing can bring it back
+    if style != "google":
+        src = dict(src)
+        src["params"] = [(n, a) for n, a in src["params"] if a["doc"] or (et and a["typ"])]
     if "emit" in r:
         chk.failure({"kind": "emit-raises", "style": style, "exc": r["emit"]}, "docstring emit raises %s" % r["emit"], rp)
         return
     if "parse" in r:
-        chk.failure({"kind": "parse-raises", "style": style, "emit_types": et, "exc": r["parse"], "has_none": "none" in kinds, "has_code": "code" in kinds},
+        wrapped = bool(ww and any(a["doc"] and len(a["doc"]) >= 60 for _, a in src["params"]))
+        chk.failure({"kind": "parse-raises", "style": style, "emit_types": et, "exc": r["parse"], "has_none": "none" in kinds, "has_code": "code" in kinds, "docless": docless, "wrapped": wrapped},
                     "parsing the emitted docstring raises %s" % r["parse"], rp)
         return
     v = r["view"]
@@ -106,7 +116,7 @@ def compare(chk, case, r):
     got_names = [n for n, _ in v["params"]]
     if names != got_names:
         wrapped = bool(ww and any(a["doc"] and len(a["doc"]) >= 60 for _, a in src["params"]))
-        chk.failure({"kind": "names", "style": style, "emit_types": et, "wrapped": wrapped}, "parameter names/order %s -> %s" % (names, got_names), rp)
+        chk.failure({"kind": "names", "style": style, "emit_types": et, "wrapped": wrapped, "docless": docless}, "parameter names/order %s -> %s" % (names, got_names), rp)
         return
     entries = [(n, a, b) for (n, a), (_, b) in zip(src["params"], v["params"])]
     empty = {"typ": None, "doc": None, "default": None}
@@ -128,7 +138,7 @@ def compare(chk, case, r):
         carried = bool(edd_e and a["doc"])  # the default travels in the prose of the description
         exp = a["default"] if carried else None
         if exp != b["default"]:
-            sig = {"kind": "default", "style": style, "entry": ent, "from": kind_of(exp), "to": kind_of(b["default"]), "carried": carried}
+            sig = {"kind": "default", "style": style, "entry": ent, "from": kind_of(exp), "to": kind_of(b["default"]), "carried": carried, "has_doc": bool(a["doc"])}
             if ww and a["doc"] and len(a["doc"]) >= 60:
                 sig["wrapped"] = True
             if ent == "return":
